@@ -14,6 +14,12 @@ def _step(x, k):
     return v if o >= 0 else -v
 
 
+def _ord(x):
+    """signed position on the double grid (monotone in x; -0 and +0 share position 0)"""
+    o = struct.unpack("<q", struct.pack("<d", abs(x)))[0]
+    return o if x >= 0 else -o
+
+
 def _exact_sub(x, y):
     d = x - y
     return not math.isinf(d) and Fraction(d) == Fraction(x) - Fraction(y)
@@ -70,6 +76,21 @@ RULE = ("requests are enumerated (workload, range, closest-index: exhaustive gri
 CORR_ONLY = ["Log_Space (exp/log): decided by the oracle on the implementation's output only",
              "Standard_Deviation = sqrt(Variance): compared against the model's variance through a square"]
 ASSUMPTIONS = ["std::upper_bound / std::nth_element / std::is_sorted behave as specified by the C++ standard",
+               "Locate_Closest_Location, generator margin rule (_closest_target_ok): a target between two neighbours a <= t < b is generated "
+               "only if the library's two subtractions t-a and b-t are exact in double, or the two exact distances differ by at least a "
+               "relative 2^-40. Reason: the library compares the ROUNDED distances fabs(a-t) < fabs(b-t); when the exact distances differ by "
+               "less than one rounding the rounded ones can coincide and the upper neighbour is returned although the lower one is nearer, "
+               "e.g. Locate_Closest_Location({-1,1}, -1e-20) = 1 (distances 1-1e-20 and 1+1e-20 both round to 1). The chosen element is "
+               "then farther than the nearest one by at most 2^-52 relative; accepted as inherent to comparing rounded distances (audit defect 3)",
+               "Linear_Space / Log_Space: end points that are distinct are generated at least `steps` (Linear_Space) resp. 4*steps (Log_Space) "
+               "places apart on the double grid: with fewer doubles than points between the ends no list can be strictly monotone, and each "
+               "Log_Space point min*exp(i*dlog) carries up to ~1.5 ulp of rounding, so distinctness is not required below 3 ulps per step "
+               "(measured on the repaired code: 0 of 300000 repeats from 3*steps on, 674 of 300000 at 2*steps); closer pairs become the degenerate request min == max",
+               "Log_Space end points are positive normal doubles (2.2e-308 .. 1.8e308), 616 decades, either orientation: among the subnormals the rounding unit is absolute, "
+               "so 'within rounding' in the logarithm has no meaning there",
+               "Linear_Space point i is compared with 2 eps relative to |min|+|max|+|max-min| plus (i+1)*2^-1075 absolute: among the subnormals rounding is absolute "
+               "(half a unit 2^-1074 per operation) and the step's rounding error is multiplied by i, e.g. Linear_Space(-0x0.000ffaf01815fp-1022, -0x0.00076a9e40bc3p-1022, 10) "
+               "ends 3 units of 2^-1074 above max; negligible (<= 2000*2^-1075) everywhere else",
                "std::sort / std::count with the DataPoint operators: sorted permutation / number of ==-equal elements (the order of points with equal values is unspecified and not compared)"]
 TRUSTED = []
 
@@ -100,11 +121,17 @@ def generate(tier, seed, ctx):
             R.append("c19.range %d %d %d" % (rng.randint(-40, 40), rng.randint(-40, 40), rng.randint(1, 40)))
     for mx in range(-5, 60):
         R.append("c19.range1 %d" % mx)
-    # --- linear / log space --------------------------------------------------------------------
-    nls = 400 if thorough else 120
+    # --- linear / log space: all (min,max,steps), steps 0..2000, either orientation, the full range of doubles -----------
+    DBL_MIN = sys.float_info.min
+    def apart(x, y, n):
+        """at least n places apart on the double grid (fewer doubles than points cannot be strictly monotone)"""
+        return abs(_ord(x) - _ord(y)) >= n
+    def logu(lo, hi):
+        return min(DBL_MAX, max(DBL_MIN, 10.0 ** rng.uniform(lo, hi)))
+    nls = 480 if thorough else 160
     for k in range(nls):
         steps = rng.choice([0, 1, 2, 3, 5, 10, 50]) if k % 3 == 0 else rng.randint(0, 2000 if thorough else 300)
-        kind = k % 4
+        kind = k % 8
         if kind == 0:
             a, b = dyadic(rng), dyadic(rng)
         elif kind == 1:
@@ -112,22 +139,48 @@ def generate(tier, seed, ctx):
             b = a + mixed_magnitude(rng, -3, 6)
         elif kind == 2:
             a = rng.uniform(-1e3, 1e3); b = rng.uniform(-1e3, 1e3)
-        else:
+        elif kind == 3:
             a = rng.uniform(-10, 10); b = a   # degenerate: min == max
+        elif kind == 4:
+            a = rng.uniform(-1, 1) * DBL_MAX; b = rng.uniform(-1, 1) * DBL_MAX          # anywhere in the double range
+        elif kind == 5:
+            a = mixed_magnitude(rng, -300, 300); b = mixed_magnitude(rng, -300, 300)     # 600 decades, either sign
+        elif kind == 6:
+            a = rng.choice([-1, 1]) * rng.uniform(0.5, 1) * DBL_MAX                      # max - min exceeds DBL_MAX
+            b = -a * rng.uniform(0.51, 1) if k % 3 else -a
+        else:
+            a = _step(0.0, rng.randint(-2 ** 40, 2 ** 40)); b = _step(0.0, rng.randint(-2 ** 40, 2 ** 40))   # subnormals
+        if a != b and not apart(a, b, steps):
+            b = _step(a, rng.choice([-1, 1]) * (steps + rng.randint(0, steps)))
         R.append("c19.linspace %s %s %d" % (hx(a), hx(b), steps))
-        la = 10.0 ** rng.uniform(-12, 12)
-        lb = la * 10.0 ** rng.uniform(-8, 8) if k % 7 else la
+        lk = k % 6
+        if lk == 0:
+            la = 10.0 ** rng.uniform(-12, 12); lb = la * 10.0 ** rng.uniform(-8, 8) if k % 7 else la
+        elif lk == 1:
+            la, lb = logu(-307.7, 308.3), logu(-307.7, 308.3)                            # any two positive normal doubles
+        elif lk == 2:
+            la, lb = logu(-307.7, -150), logu(150, 308.3)                                # max/min is not a finite double
+        elif lk == 3:
+            la, lb = DBL_MIN * rng.uniform(1, 4), DBL_MAX / rng.uniform(1, 4)            # the whole normal range
+        elif lk == 4:
+            la = 10.0 ** rng.uniform(-3, 3); lb = la * 10.0 ** rng.uniform(-1, 1)
+        else:
+            la = logu(-300, 300); lb = la * (1 + 10.0 ** rng.uniform(-12, -3))
+        if rng.random() < 0.5:
+            la, lb = lb, la                                                              # either orientation
+        if la != lb and not apart(la, lb, 4 * steps):
+            lb = la
         R.append("c19.logspace %s %s %d" % (hx(la), hx(lb), steps))
-    # end points that are close but distinct (relative gap 1e-16 .. 1e-9): a full grid must still come back
-    for k in range(60 if thorough else 24):
-        a = rng.choice([1.0, -1.0, 3.5, 1e-3, 1e6, -7.25e4]) * (1 + rng.random())
-        gap = 10.0 ** rng.uniform(-15.5, -9)
-        b = a * (1 + gap) if k % 2 else a * (1 - gap)
-        steps = rng.choice([2, 3, 5, 17])
-        if b != a:
-            R.append("c19.linspace %s %s %d" % (hx(a), hx(b), steps))
-            if a > 0:
-                R.append("c19.logspace %s %s %d" % (hx(a), hx(b), steps))
+    # close end points, either orientation, at every magnitude: the end points are `c*steps` (+ up to steps) doubles apart,
+    # c = 1 for Linear_Space (the pigeonhole bound), c = 4 for Log_Space (see ASSUMPTIONS)
+    for k in range(150 if thorough else 50):
+        steps = rng.choice([2, 3, 5, 17, 64]) if k % 2 else rng.randint(2, 2000 if thorough else 300)
+        a = rng.choice([1.0, 3.5, 1e-3, 1e6, 7.25e4, 2.0 ** rng.randint(-1000, 1000), logu(-300, 300)]) * (1 + rng.random())
+        sgn = rng.choice([-1, 1])
+        b = _step(a, rng.choice([-1, 1]) * (steps + rng.randint(0, steps)))
+        R.append("c19.linspace %s %s %d" % (hx(sgn * a), hx(sgn * b), steps))
+        b = _step(a, rng.choice([-1, 1]) * (4 * steps + rng.randint(0, steps)))
+        R.append("c19.logspace %s %s %d" % (hx(a), hx(b), steps))
     # --- closest location -----------------------------------------------------------------------
     alpha = [0.0, 1.0, 2.0, 3.0, 4.0]
     maxlen = 6 if thorough else 4
@@ -427,14 +480,17 @@ def compare(rq, impl, model, ctx):
         if len(vi) != len(vm):
             out.append(fail("prop", "Linear_Space: wrong number of points", "%d vs %d" % (len(vi), len(vm))))
         else:
+            # each point within 2 eps of the exact grid point, eps = 2^-53, relative to |min|+|max|+|max-min| (measured worst
+            # case 1.45 over the whole double range).  Among the subnormals rounding is absolute, half a unit 2^-1074 per
+            # operation: the step carries 2^-1075, point i = min + i*step therefore i*2^-1075, plus 2^-1075 for the product
             scale = abs(Fraction(mn)) + abs(Fraction(mx)) + abs(Fraction(mx) - Fraction(mn))
             for i, (x, m) in enumerate(zip(vi, vm)):
-                if not close(x, m, scale, 8):
+                if not close(x, m, scale, 2, atol=Fraction(i + 1, 2 ** 1075)):
                     out.append(fail("prop", "Linear_Space: point %d off the equally spaced grid" % i, "%r vs %s" % (x, float(m))))
                     break
             if vi and vi[0] != mn:
                 out.append(fail("prop", "Linear_Space: first point is not min exactly", ""))
-            if len(vi) > 1 and abs(Fraction(mx) - Fraction(mn)) > scale * Fraction(len(vi), 2 ** 44):
+            if len(vi) > 1:
                 mono = all((vi[i + 1] > vi[i]) == (mx > mn) and vi[i + 1] != vi[i] for i in range(len(vi) - 1))
                 if not mono:
                     out.append(fail("prop", "Linear_Space: not strictly monotone", ""))
@@ -614,19 +670,25 @@ def oracle_logspace(a, impl, ctx):
         return [fail("prop", "Log_Space: wrong number of points", "%d vs %d" % (len(v), n))]
     if n == 1:
         return [] if v[0] == mn else [fail("prop", "Log_Space: degenerate request does not return {min}", "")]
+    if any(math.isnan(x) or math.isinf(x) or x <= 0 for x in v):
+        return [fail("prop", "Log_Space: a point is not a positive finite number", " ".join(repr(x) for x in v[:4]))]
+    out = []
+    if v[0] != mn:
+        out.append(fail("prop", "Log_Space: does not start at min", "%r vs %r" % (v[0], mn)))
+    if abs(Fraction(v[-1]) - Fraction(mx)) > 4 * EPS * Fraction(mx):
+        out.append(fail("prop", "Log_Space: does not end at max within rounding", "%r vs %r" % (v[-1], mx)))
+    for i in range(n - 1):
+        if not ((v[i + 1] > v[i]) == (mx > mn) and v[i + 1] != v[i]):
+            out.append(fail("prop", "Log_Space: not strictly monotone", "points %d, %d: %r %r" % (i, i + 1, v[i], v[i + 1]))); break
+    # equal spacing in the logarithm within rounding: 64 eps (eps = 2^-53) relative to the largest |log| involved; the
+    # double-precision logarithms of the oracle itself contribute up to 2 of these 64
     lg = [math.log(x) for x in v]
     L = max(1.0, abs(math.log(mn)), abs(math.log(mx)))
     dl = (math.log(mx) - math.log(mn)) / (n - 1)
-    out = []
-    if abs(lg[0] - math.log(mn)) > 1e-12 * L:
-        out.append(fail("prop", "Log_Space: does not start at min", ""))
-    if abs(lg[-1] - math.log(mx)) > 1e-11 * L:
-        out.append(fail("prop", "Log_Space: does not end at max", ""))
-    for i in range(n - 1):
-        if abs((lg[i + 1] - lg[i]) - dl) > 1e-10 * L + 1e-9 * abs(dl):
-            out.append(fail("prop", "Log_Space: not equally spaced in the logarithm at %d" % i, "")); break
-        if abs(dl) > 1e-9 * L and (lg[i + 1] > lg[i]) != (dl > 0):
-            out.append(fail("prop", "Log_Space: not strictly monotone", "")); break
+    worst = max(abs((lg[i + 1] - lg[i]) - dl) for i in range(n - 1)) / (L * 2.0 ** -53)
+    ctx["stats"]["logspace.worst_spacing_error_in_eps_L_x100"] = max(ctx["stats"].get("logspace.worst_spacing_error_in_eps_L_x100", 0), int(100 * worst))
+    if worst > 64:
+        out.append(fail("prop", "Log_Space: not equally spaced in the logarithm", "%.1f eps*L" % worst))
     return out
 
 
@@ -646,11 +708,13 @@ def finalize(ctx, exe):
             if "eq" in d and "mean" in d:
                 (avg, se), c, s, n, rq = d["eq"][0], d["eq"][1], d["eq"][2], d["eq"][3], d["eq"][4]
                 mean = d["mean"][0][0]
-                if abs(avg - mean) > 1e-12 * max(1.0, abs(mean)) * n:
-                    out.append(dict(fail("prop", "Weighted_Average with equal weights is not the plain mean", "%r vs %r" % (avg, mean)), req=rq))
+                # all weights one: sum(w*x)/sum(w) performs the very additions and the very division of Arithmetic_Mean
+                if avg != mean:
+                    out.append(dict(fail("prop", "Weighted_Average with equal weights is not the plain mean (bit for bit)", "%r vs %r" % (avg, mean)), req=rq))
                 if "var" in d and n >= 2:
                     var = d["var"][0][0]
-                    if abs(se * se - var / n) > 1e-9 * max(abs(var / n), 1e-300) + 1e-12 * (abs(mean) ** 2 + abs(var)):
+                    # standard error = s/sqrt(N) to 8 eps relative (eps = 2^-53), compared exactly through the squares (16 eps)
+                    if math.isnan(se) or abs(Fraction(se) ** 2 - Fraction(var) / n) > 16 * EPS * Fraction(var) / n:
                         out.append(dict(fail("prop", "Weighted_Average with equal weights: standard error is not s/sqrt(N)", "%r vs %r" % (se, math.sqrt(var / n))), req=rq))
             continue
         if "base" not in d:
@@ -658,6 +722,13 @@ def finalize(ctx, exe):
         b = d["base"][0][0]; c, s, n, rq = d["base"][1:]
         if math.isnan(b):
             continue   # variance of one point
+        if nm == "median":
+            # the median is one data point or the mean of two: it does not depend on the order, commutes exactly with a
+            # scaling by a power of two (all generated factors are +-2^k) and with an exactly representable shift
+            for var_, exp_, law in (("perm", b, "permutation law"), ("shift", b + c, "translation law"), ("scale", b * s, "scaling law")):
+                if var_ in d and d[var_][0][0] != exp_:
+                    out.append(dict(fail("prop", "median: " + law + " (exact)", "%r vs %r" % (d[var_][0][0], exp_)), req=rq))
+            continue
         tol = lambda ref: 1e-11 * max(abs(ref), 1e-300) * max(n, 8)
         if "perm" in d and abs(d["perm"][0][0] - b) > tol(b) + (0 if nm == "median" else 1e-13 * n):
             if not (nm in ("variance", "stddev") and abs(d["perm"][0][0] - b) <= 1e-9 * abs(b) + 1e-20):
